@@ -4,6 +4,7 @@ import ast
 from sa.astutil import (facts_at, call_name, calls_in, dotted, norm, walk_no_nested, fact_texts,
                         last_attr, names_in, guards_of, call_arg, block_always_exits)
 from sa.loader import AnalysisError
+from sa.canon import canon
 from sa.tables import Cfg, columns_of_slice, subscript_range
 from checks import common
 from checks.recordloop import RecordLoop
@@ -66,6 +67,8 @@ def run(ctx):
     common.check_fixed_columns(ctx, 'C07.R1', prog, ['name', 'x', 'y', 'z', 'res_num', 'res_name',
                                                      'chain_id', 'icode'])
     ctx.need('C07.R1', 28)
+    from checks.recordloop import check_raw_record_fields
+    check_raw_record_fields(ctx, 'C07.R1', rl)
     # element derived only from the name columns (all definitions)
     el_defs = [s for s in walk_no_nested(sp) if isinstance(s, ast.Assign)
                and norm(s.targets[0]) == 'self.element']
@@ -263,6 +266,18 @@ def run(ctx):
     ctx.ob('C07.R4', 'protonate-all:wired', ok,
            'eager protonation runs exactly under options.protonate_all', hyd,
            pcalls[0] if pcalls else sbp)
+
+    # the heavy-atom view used by the desolvation and buried counts
+    ccm = prog.mod('conformation_container')
+    gnh = ccm.func('ConformationContainer.get_non_hydrogen_atoms')
+    gcan = canon(gnh)
+    grets = [gcan.text(r.value) for r in walk_no_nested(gnh) if isinstance(r, ast.Return)
+             and r.value is not None]
+    ctx.ob('C07.R3', 'heavy-atom-view:filter-of-current-atoms',
+           grets == ["[v1 for v1 in self.atoms if v1.element != 'H']"],
+           'get_non_hydrogen_atoms returns a fresh filter of the current atom list on every call '
+           '(a stored list can alias `atoms` itself - remove_all_hydrogen_atoms assigns the result '
+           'to it - and then collects the hydrogens added later); returns: %s' % grets, ccm, gnh)
 
     # ------------------------------------------------------------------ R5
     pr = prog.mod('protonate')
